@@ -7,6 +7,7 @@ import ast
 from . import cfg as cfgmod
 from .loader import AnalysisError, attr_chain, call_name, unparse
 from .dataflow import target_names
+from .inline import flatten
 
 PARTITIONS = ('Endogenous', 'Lagged', 'Exogenous', 'Decoration')
 
@@ -75,15 +76,26 @@ def eval_calls(node_ast):
 
 class Sweep(object):
     def __init__(self, prog):
-        cands = []
-        for f in prog.all_functions():
-            for w in ast.walk(f.node):
-                if isinstance(w, ast.While):
-                    for fr in ast.walk(w):
-                        if isinstance(fr, ast.For) and iter_partition(fr) == 'Endogenous' and eval_calls(fr):
-                            cands.append((f, w, fr))
-        # keep the in-process solver (core, non-deprecated) first
-        cands = [c for c in cands if '/deprecated/' not in c[0].module.rel and series_mutation(c[0].node)]
+        def find(funcs):
+            out = []
+            for f in funcs:
+                if '/deprecated/' in f.module.rel or not series_mutation(f.node):
+                    continue
+                for w in ast.walk(f.node):
+                    if isinstance(w, ast.While):
+                        for fr in ast.walk(w):
+                            if isinstance(fr, ast.For) and iter_partition(fr) == 'Endogenous' and eval_calls(fr):
+                                out.append((f, w, fr))
+            return out
+        # the in-process solver (core, non-deprecated); private helpers of the function are looked through
+        cands = find(prog.all_functions())
+        if len(cands) == 1:
+            cands = find([flatten(prog, cands[0][0])])
+        else:
+            flat = [flatten(prog, f) for f in prog.all_functions()]
+            cands = find(flat)
+            keys = {c[0].key for c in cands}
+            cands = [c for c in cands if not (set(getattr(c[0], 'inlined', ())) & (keys - {c[0].key}))]
         if len(cands) != 1:
             raise AnalysisError('expected exactly one sweep function (while-loop eval over .Endogenous), found %d: %s'
                                 % (len(cands), [c[0].qualname for c in cands]))
@@ -125,6 +137,58 @@ class Sweep(object):
                     if isinstance(y, ast.Assign) and isinstance(y.value, ast.Constant) and y.value.value is True:
                         flags.update(target_names(y.targets[0]))
         self.flags = sorted(flags)
+
+    def eval_stores(self):
+        """[(assignment, subscript target)] - the stores that receive the value of the sweep evaluation, followed
+        through local names and tuple packing / unpacking (flow-insensitive, position-wise)"""
+        carriers = {}
+        stores = []
+        assigns = [a for a in ast.walk(self.endo_for) if isinstance(a, ast.Assign)]
+
+        def holds(e):
+            if e is self.sweep_eval:
+                return {None}
+            if isinstance(e, ast.IfExp):
+                return holds(e.body) | holds(e.orelse)
+            if isinstance(e, ast.Name):
+                return set(carriers.get(e.id, ()))
+            if isinstance(e, (ast.Tuple, ast.List)):
+                out = set()
+                for i, x in enumerate(e.elts):
+                    if None in holds(x):
+                        out.add(i)
+                return out
+            if isinstance(e, ast.Call) and call_name(e) == 'float' and len(e.args) == 1:
+                return holds(e.args[0])
+            return set()
+
+        def give(target, a):
+            if isinstance(target, ast.Subscript):
+                if (a, target) not in [(x, y) for x, y in stores]:
+                    stores.append((a, target))
+                return False
+            if isinstance(target, ast.Name):
+                before = len(carriers.setdefault(target.id, set()))
+                carriers[target.id].add(None)
+                return len(carriers[target.id]) != before
+            return False
+        changed = True
+        while changed:
+            changed = False
+            for a in assigns:
+                pos = holds(a.value)
+                for t in a.targets:
+                    for p in pos:
+                        if p is None:
+                            changed |= give(t, a)
+                        elif isinstance(t, (ast.Tuple, ast.List)) and p < len(t.elts):
+                            changed |= give(t.elts[p], a)
+                        elif isinstance(t, ast.Name):
+                            c = carriers.setdefault(t.id, set())
+                            if p not in c:
+                                c.add(p)
+                                changed = True
+        return stores
 
     def node_in_loop(self, n):
         return n in self.loop_nodes
